@@ -213,6 +213,24 @@ func (c *ctx) decorate(tv *TV) {
 	}
 }
 
+// prune: drop fields of structs at every nesting level, as a writer with an older schema would
+// (absent fields of nested structs must then read as the declared defaults)
+func (c *ctx) prune(tv *TV, p int) {
+	r := c.r
+	tv.walkStructs(func(s *TV) {
+		if len(s.Fields) == 0 || r.Intn(2) == 0 {
+			return
+		}
+		var keep []TField
+		for _, f := range s.Fields {
+			if r.Intn(p) != 0 {
+				keep = append(keep, f)
+			}
+		}
+		s.Fields = keep
+	})
+}
+
 func (c *ctx) dest(u *universe.UStruct, g *genCfg) reflect.Value {
 	switch c.r.Intn(3) {
 	case 0:
@@ -259,6 +277,9 @@ func (c *ctx) decodeSide(us []*universe.UStruct, perType int, reencode bool) {
 			tv := c.mkMessage(w, g)
 			if tv == nil {
 				continue
+			}
+			if i%3 == 1 {
+				c.prune(tv, 3)
 			}
 			if i%4 != 0 {
 				c.decorate(tv)
@@ -893,6 +914,92 @@ func (c *ctx) storms(outs []*H, seeds []int64) {
 			for i := 0; i < 30*c.n && len(jobs) > 0; i++ {
 				j := jobs[r.Intn(len(jobs))]
 				hh.opDec(j.u, j.msg, reflect.New(j.u.Type), false)
+			}
+		}()
+	}
+	wg.Wait()
+	// (a') decodes of messages whose nested structs omit fields, into types whose nested structs
+	// declare defaults: the default initialiser of one descriptor is then run by many goroutines
+	var djobs []job
+	gd := c.cfg()
+	gd.maxLen = 5
+	gd.minLen = 2
+	gd.bigStr = false
+	// … mostly long containers of such structs (the window between preparing a descriptor's
+	// initialiser and running it is a few instructions: it takes millions of nested structs)
+	gl := c.cfg()
+	gl.minLen, gl.maxLen, gl.bigStr = 24, 24, false
+	for _, u := range c.accepted("defaults") {
+		for k := 0; k < 2; k++ {
+			if tv := c.mkMessage(c.writerOf(u), gl); tv != nil {
+				c.prune(tv, 2)
+				djobs = append(djobs, job{u, tv.ser(nil)})
+			}
+		}
+	}
+	for _, u := range c.accepted("maps", "lists") {
+		tv := c.mkMessage(c.writerOf(u), gd)
+		if tv == nil {
+			continue
+		}
+		c.prune(tv, 2)
+		if m := tv.ser(nil); len(m) < 3000 && c.r.Intn(4) == 0 {
+			djobs = append(djobs, job{u, m})
+		}
+	}
+	// sequential reference results, computed before the storm by the same implementation
+	type ref struct {
+		v     reflect.Value
+		shown string
+	}
+	refs := make([]ref, len(djobs))
+	for i, j := range djobs {
+		d, b, res, n := decRaw(j.u, j.msg)
+		refs[i] = ref{d, showRaw(d, b, res, n)}
+	}
+	for w, hh := range outs {
+		w, hh := w, hh
+		wg.Add(1)
+		go func() {
+			defer wg.Done()
+			r := rand.New(rand.NewSource(seeds[w] + 9))
+			for i := 0; i < 25*c.n && len(djobs) > 0; i++ {
+				j := djobs[r.Intn(len(djobs))]
+				hh.opDec(j.u, j.msg, reflect.New(j.u.Type), false)
+			}
+			// the bulk of the storm is compared in-process with the sequential result (cheaply:
+			// DeepEqual first, rendering only when that differs — NaNs make it differ spuriously);
+			// a real difference is written to the transcript so that the model judges it too
+			bad := 0
+			const burst = 64
+			type out struct {
+				d   reflect.Value
+				b   []byte
+				res string
+				n   int
+			}
+			outsB := make([]out, burst)
+			for round := 0; round < 40*c.n && len(djobs) > 0 && bad < 3; round++ {
+				k := r.Intn(len(djobs))
+				j := djobs[k]
+				for x := range outsB {
+					d, b, res, n := decRaw(j.u, j.msg)
+					outsB[x] = out{d, b, res, n}
+				}
+				for _, o := range outsB {
+					hh.stats["dec_quiet"]++
+					if o.res == "ok" && reflect.DeepEqual(o.d.Interface(), refs[k].v.Interface()) {
+						continue
+					}
+					got := showRaw(o.d, o.b, o.res, o.n)
+					if got != refs[k].shown {
+						bad++
+						hh.emit(decLine(j.u, j.msg) + " -> " + got)
+						hh.oracle("C08", fmt.Sprintf("concurrent DecodeObject differs from the sequential result sid=%d in=%s sequential=%s concurrent=%s",
+							j.u.Sid, hexOrDash(j.msg), clip(refs[k].shown), clip(got)))
+						break
+					}
+				}
 			}
 		}()
 	}
